@@ -139,6 +139,12 @@ fn compile_ordering_int__operator_table_and_nil_default() {
     let a: i64 = kani::any();
     let b: i64 = kani::any();
     let op = any_ordering_op();
+    if cfg!(test) {
+        // concrete playback: replay the counterexample on the real code, end to end
+        let absent = if op == OrderingOp::NotEqual { nil } else { false };
+        replay_check(Type::Int, nil, || ComparisonOpExpr::Ordering { op, rhs: RhsValue::Int(b) }, LhsValue::Int(a), want_ord(op, a, b), absent);
+        return;
+    }
     unsafe {
         PROBE = Some(LhsValue::Int(a));
     }
@@ -166,6 +172,18 @@ fn ordering_ip_body(a_is4: bool, b_is4: bool) {
     let a = if a_is4 { IpAddr::V4(Ipv4Addr::from(a4)) } else { IpAddr::V6(Ipv6Addr::from(a6)) };
     let b = if b_is4 { IpAddr::V4(Ipv4Addr::from(b4)) } else { IpAddr::V6(Ipv6Addr::from(b6)) };
     let op = any_ordering_op();
+    if cfg!(test) {
+        let want = if a_is4 && b_is4 {
+            want_ord(op, a4, b4)
+        } else if !a_is4 && !b_is4 {
+            want_ord(op, a6, b6)
+        } else {
+            op == OrderingOp::NotEqual
+        };
+        let absent = if op == OrderingOp::NotEqual { nil } else { false };
+        replay_check(Type::Ip, nil, || ComparisonOpExpr::Ordering { op, rhs: RhsValue::Ip(b) }, LhsValue::Ip(a), want, absent);
+        return;
+    }
     unsafe {
         PROBE = Some(LhsValue::Ip(a));
     }
@@ -212,6 +230,10 @@ fn compile_bitwise_and__nonzero_intersection() {
     let scheme = scheme_of(&[(Type::Int, false)], true);
     let a: i64 = kani::any();
     let b: i64 = kani::any();
+    if cfg!(test) {
+        replay_check(Type::Int, nil, || ComparisonOpExpr::Int { op: IntOp::BitwiseAnd, rhs: b }, LhsValue::Int(a), (a & b) != 0, false);
+        return;
+    }
     unsafe {
         PROBE = Some(LhsValue::Int(a));
     }
@@ -236,6 +258,10 @@ fn compile_is_true__bare_boolean_field() {
     let nil: bool = kani::any();
     let scheme = scheme_of(&[(Type::Bool, false)], true);
     let a: bool = kani::any();
+    if cfg!(test) {
+        replay_check(Type::Bool, nil, || ComparisonOpExpr::IsTrue, LhsValue::Bool(a), a, false);
+        return;
+    }
     unsafe {
         PROBE = Some(LhsValue::Bool(a));
         LHS_TYPE = Some(Type::Bool);
@@ -265,6 +291,20 @@ fn compile_ordering_bytes__lexicographic() {
     let llen: usize = kani::any();
     kani::assume(xlen <= 2 && llen <= 2);
     let op = any_ordering_op();
+    if cfg!(test) {
+        let x = &xb[..xlen];
+        let l = &lb[..llen];
+        let absent = if op == OrderingOp::NotEqual { nil } else { false };
+        replay_check(
+            Type::Bytes,
+            nil,
+            || ComparisonOpExpr::Ordering { op, rhs: RhsValue::Bytes(crate::rhs_types::BytesExpr::new(l.to_vec(), crate::rhs_types::BytesFormat::Quoted)) },
+            LhsValue::Bytes(Bytes::Owned(x.to_vec().into_boxed_slice())),
+            want_ord(op, x, l),
+            absent,
+        );
+        return;
+    }
     #[allow(static_mut_refs)]
     unsafe {
         XB = xb;
